@@ -120,7 +120,7 @@ OPERANDS = [b'1', b"'a'", b'true', b'null', b'@', b'@.a', b'@[0]', b'$', b'$.a',
             b'@.a.twice()', b'@.cnt().cnt()', b'$.a.cnt()']
 OPS = [b'==', b'!=', b'<', b'<=', b'>', b'>=']
 REGEX_BODIES = [b'a', b'\\Qa.b', b'\\Q', b'a\\Qb(', b'\\Qx\\E', b'\\Q\\E', b'(', b')', b'(?i)a', b'(?x)', b'(?s).', b'(?U)a*', b'[', b'[a', b'a{2,1}', b'a{1001}',
-                b'\\p{Greek}', b'\\pN', b'\\C', b'(?P<n>a)', b'(?<n>a)', b'\\z', b'\\1', b'a**', b'\\d+', b'[[:alpha:]]', b'\\x{10FFFF}', b'\\x{110000}', b'.', b'^$', b'a|', b'(?:)', b'^c:\\/tmp\\\\', b'\\/\\\\', b'a\\/', b'\\\\', b'\\\\\\/', b'a\\/b\\\\\\\\', b'\\/']
+                b'\\p{Greek}', b'\\pN', b'\\C', b'(?P<n>a)', b'(?<n>a)', b'\\z', b'\\1', b'a**', b'\\d+', b'[[:alpha:]]', b'\\x{10FFFF}', b'\\x{110000}', b'.', b'^$', b'a|', b'(?:)', b'^c:\\/tmp\\\\', b'\\/\\\\', b'a\\/', b'\\\\', b'\\\\\\/', b'a\\/b\\\\\\\\', b'\\/', b'ab(?', b'(?', b'x(?i)y(?<', b'(?<', b'(?=a)', b'a(?!b)', b'(?<=a)b']
 STEPS = [b'.a', b"['a']", b'["a"]', b'.*', b'[*]', b"['a','b']", b'[*,*]', b'[0]', b'[-1]', b'[0,1]', b'[1:]', b'[::2]',
          b'[::-1]', b'[:0:0]', b'..a', b'..*', b'..[0]', b"..['a','b']", b'[?(@.a)]', b'[?(@.a==1)]', b'.twice()',
          b'.cnt()', b'[(1)]', b'..[?(@)]', b'[(@.length)]', b'[(@.length-1)]', b'..[(@.length)]', b'[(@)]']
